@@ -20,7 +20,8 @@ Print Assumptions C06_opaque_roundtrip.
    this very response; every standard claim group (profile, email, phone, address)
    only if its scope is among [granted] = id_scopes: request scopes minus the client's
    restriction, minus all userinfo scopes when an access token travels along and
-   the assertion flag is off (token exchange: the request's scopes); nothing else. *)
+   the assertion flag is off (token exchange: the request's scopes); any other claim
+   is a custom claim <n> of a granted scope custom:<n>. *)
 Theorem C06_id_token_claims :
   forall (H : hkind -> string -> list nat) (E : list nat -> list nat)
          issuer f cl kat kid u rq state ids en now j ic,
@@ -45,8 +46,8 @@ Theorem C06_id_token_claims :
         (i_name ic <> "" \/ i_username ic <> "" -> string_in "profile" g = true)
         /\ (i_email ic <> "" \/ i_email_verified ic = true -> string_in "email" g = true)
         /\ (i_phone ic <> "" \/ i_phone_verified ic = true -> string_in "phone" g = true)
-        /\ (i_addr ic <> "" -> string_in "address" g = true))
-    /\ i_extra ic = [].
+        /\ (i_addr ic <> "" -> string_in "address" g = true)
+        /\ (forall e, In e (i_extra ic) -> string_in ("custom:" ++ fst e)%string g = true)).
 Proof. exact id_token_claims. Qed.
 Print Assumptions C06_id_token_claims.
 
@@ -73,9 +74,54 @@ Theorem C06_id_token_verifies :
 Proof. exact id_token_verifies. Qed.
 Print Assumptions C06_id_token_verifies.
 
+(* Custom claims cannot replace registered ones.  The storage names its custom
+   claims as it likes (custom:<n> -> claim <n>, ANY string n).  In every ID token of
+   every response no surviving custom claim has a name that folds - ASCII case,
+   U+017F (long s) = s, U+212A (Kelvin sign) = k, i.e. the way strings.EqualFold and
+   encoding/json's member matching compare with an ASCII name - to the name of a
+   registered member that is written into that token; and iss, sub, aud, azp,
+   client_id, exp, iat always are.  So the library's own (case-insensitive) decoder
+   reads issuer, subject, audience ... of the request, whatever the storage's claim
+   names are. *)
+Theorem C06_custom_claims_never_shadow :
+  forall (H : hkind -> string -> list nat) (E : list nat -> list nat)
+         issuer f cl kat kid u rq state ids en now j ic,
+    let r := create_token_response H E issuer f cl kat kid u rq state ids en now in
+    r_id r = Some (j, ic) ->
+    (forall e n, In e (i_extra ic) -> In n (id_written ic) -> fold_eq (fst e) n = false)
+    /\ (issuer <> "" -> rq_sub rq <> "" -> cl_id cl <> "" ->
+        (0 < sec now - cl_skew cl)%Z -> (0 < sec now + cl_skew cl + cl_id_life cl)%Z ->
+        (forall n, In n id_core_names -> In n (id_written ic))
+        /\ (forall e n, In e (i_extra ic) -> In n id_core_names -> fold_eq (fst e) n = false)).
+Proof. exact id_custom_never_shadows. Qed.
+Print Assumptions C06_custom_claims_never_shadow.
+
+(* The marshalled claims document = written members, then the surviving custom
+   claims: any entry whose key folds to a written member's name is that member's
+   own entry - for every member list and every custom claim list. *)
+Theorem C06_merged_document_members :
+  forall (reg custom : list (string * string)) k v n,
+    In (k, v) (reg ++ merge_registered (map fst reg) custom) ->
+    In n (map fst reg) -> fold_eq k n = true -> In (k, v) reg.
+Proof. exact merged_document_members. Qed.
+Print Assumptions C06_merged_document_members.
+
+(* The audience of an ID token: the request's audience, and the client is appended
+   unless the audience holds EXACTLY the client id - a case variant of it, the id
+   with white space or a trailing slash around it is another party. *)
+Theorem C06_audience_exact :
+  forall client aud,
+    string_in client (append_client client aud) = true
+    /\ (string_in client aud = false -> append_client client aud = aud ++ [client])
+    /\ (string_in client aud = true -> append_client client aud = aud).
+Proof. exact audience_exact. Qed.
+Print Assumptions C06_audience_exact.
+
 (* JWT access tokens: iss, sub, aud, client_id from the request / client, jti and exp
    = the storage's token id and expiry, iat = nbf = now - skew, private claims only
-   for granted custom scopes; op.VerifyAccessToken (C02 model) accepts them. *)
+   for granted custom scopes and never under a name that folds (ASCII case, U+017F = s,
+   U+212A = k) to a registered member the token carries; op.VerifyAccessToken (C02 model)
+   accepts them. *)
 Theorem C06_access_jwt_verifies :
   forall (verify : jwk -> sigentry -> string -> bool) (H : hkind -> string -> list nat)
          (E : list nat -> list nat) issuer f cl kat kid keys u rq state ids en now w j a algs vnow,
@@ -90,7 +136,8 @@ Theorem C06_access_jwt_verifies :
     /\ a_exp a = st_exp now (cl_at_life cl')
     /\ a_iat a = (sec now - cl_skew cl')%Z /\ a_nbf a = a_iat a
     /\ (forall e, In e (a_extra a) ->
-          string_in ("custom:" ++ fst e)%string (restrict (cl_drop_at cl') (rq_scopes rq)) = true)
+          string_in ("custom:" ++ fst e)%string (restrict (cl_drop_at cl') (rq_scopes rq)) = true
+          /\ forall n, In n (at_written a) -> fold_eq (fst e) n = false)
     /\ (sign_complete verify kat -> key_ok kat = true -> published_once kat keys = true ->
         string_in (sk_alg kat) (effective_algs algs) = true ->
         (0 <= vnow)%Z -> (vnow < st_exp now (cl_at_life cl') * ns)%Z ->
